@@ -3,6 +3,7 @@ from __future__ import annotations
 
 from .. import carrier_gen as G
 from .. import carrier_h as H
+from .. import detect_h as D
 from .. import json_h as J
 from ..core import canon, sha
 from ..runner import Suite
@@ -13,12 +14,15 @@ MANIFEST = dict(
     technique='Lean 4 proof by composition of existing theorems + four-way differential run of the real transports against each other, the scripted conversation and the compiled model pipelines',
     design='5/C15',
 )
-GEN = []
+GEN = ["UrlRules", "Versions"]
 THEOREMS = [
     "c15_stdio_transcript", "c15_httpJson_transcript", "c15_httpSse_transcript", "c15_sse_transcript",
     "c15_transcript", "c15_carrier_agnostic", "c15_expressible_everywhere",
     "c15_real_codec_stdio", "c15_real_codec_stdio_line", "c15_real_codec_http", "c15_real_codec_sse",
     "c15_real_transcript", "c15_helpers_agree",
+    "c15_client_trace_shape", "c15_client_init_once", "c15_client_lazy_init", "c15_client_initialized_stable", "c15_client_agnostic",
+    "c15_url_heuristics", "c15_detect_sound", "c15_detect_probes", "c15_detect_guard",
+    "c15_fallback_decision", "c15_try_sse_decision",
 ]
 RULE = (
     "conversations of 1..4 sequential exchanges: client call = every discovered typed helper / send_initialize / "
@@ -386,6 +390,10 @@ class Conversations(Suite):
             fs.add("outcome:" + o["outcome"])
         if obs[present[0]].get("late"):
             fs.add("arrives-after-its-call")
+        fs.add("via:" + case.get("via", "cm"))
+        for c in present:
+            if obs[c].get("factory_unavailable"):
+                fs.add("factory-unavailable:" + obs[c]["factory_unavailable"])
         for f in fs:
             self.feats[f] += 1
         if any(obs[c].get("harness_error") for c in present):
@@ -403,11 +411,165 @@ class Conversations(Suite):
         return G.shrink_candidates(case)
 
 
+OP_OF_METHOD = {v: k for k, v in H.OP_METHOD.items()}
+
+
+class Clients(Conversations):
+    """`MCPClient` / `connect_to_server` over the Transport class of each carrier (`create_transport`):
+    operation results and errors carrier against carrier and against the scripted conversation (oracle),
+    and against the client model (initialize once, lazily, `set_protocol_version` with the answered version)"""
+    name = "mcpclient"
+
+    def cases(self, ctx, budget):
+        n = {"quick": 260, "thorough": 6000, "search": 1500}[budget]
+        rng = ctx.sub_rng("c15", "client", budget)
+        return G.client_directed(ctx.sub_rng("c15", "client-directed")) + [G.client_case(rng) for _ in range(n)]
+
+    def model_line(self, case, obs=None):
+        if obs is None or any(o and failed(o) for o in obs.values()):
+            return None
+        inits = [x.get("expect") or {"ok": "2025-06-18"} for x in case.get("inits") or []]
+        calls = [({"ok": "ok"} if a.get("kind", "ok") == "ok" else {"raise": a["kind"]}) for a in case.get("answers") or []]
+        return {"m": "mcpclient", "connect": bool(case.get("connect")), "ops": [o["op"] for o in case["ops"]], "inits": inits, "calls": calls}
+
+    def model_obs(self, out, case):
+        return out
+
+    @staticmethod
+    def shape_of(case, o):
+        """the implementation's observation in the model's vocabulary"""
+        kinds = []
+        if case.get("connect"):
+            kinds.append("initialized" if o.get("connected") else "raised")
+        for op, r in zip(case["ops"], o["outcomes"]):
+            if r["outcome"] != "returned":
+                kinds.append("raised")
+            elif op["op"] == "init":
+                v = r["value"]
+                kinds.append("initialized" if isinstance(v, dict) and v.get("$model") == "InitializeResult" else "cached")
+            else:
+                kinds.append("value")
+        trace, sets = [], list(o.get("set_version") or [])
+        for req in o["sent"]:
+            trace.append({"req": OP_OF_METHOD.get(req["method"], req["method"])})
+            if req["method"] == "initialize" and False:
+                pass
+        return kinds, trace, sets
+
+    def compare(self, case, obs, m):
+        want_kinds = [r["k"] for r in m["results"]]
+        want_reqs = [e for e in m["trace"] if "req" in e]
+        want_sets = [e["set"] for e in m["trace"] if "set" in e]
+        for c in PAIR_ORDER:
+            o = obs.get(c)
+            if o is None:
+                continue
+            kinds, trace, sets = self.shape_of(case, o)
+            if kinds != want_kinds:
+                return f"{c}: operations end as {kinds}, the client model says {want_kinds}"
+            if canon(trace) != canon(want_reqs):
+                return f"{c}: requests written {canon(trace)}, the client model says {canon(want_reqs)}"
+            if sets != want_sets:
+                return f"{c}: set_protocol_version calls {sets}, the client model says {want_sets}"
+            if o.get("connected", True) and "client_initialized" in o and bool(o["client_initialized"]) != bool(m["initialized"]):
+                return f"{c}: client.initialized = {o['client_initialized']}, the model says {m['initialized']}"
+        return None
+
+    def oracle(self, case, obs):
+        r = super().oracle(case, obs)
+        if r is not None:
+            return r
+        present = [c for c in PAIR_ORDER if obs.get(c) is not None]
+        ref = present[0]
+        for a in present[1:]:
+            for key in ("connected", "connect_exc"):
+                if obs[a].get(key) != obs[ref].get(key):
+                    return (f"helper-outcome/{ref}-vs-{a}", f"connect_to_server ends differently on {ref} and {a}: "
+                            f"{obs[ref].get(key)} vs {obs[a].get(key)}", None)
+        return None
+
+    def kind(self, case, obs):
+        from collections import Counter
+        if self.feats is None:
+            self.feats = Counter()
+        present = [c for c in PAIR_ORDER if obs.get(c) is not None]
+        if any(obs[c].get("harness_error") for c in present):
+            _SUITE.harness_errors += 1
+            return "harness-error"
+        o = obs[present[0]]
+        fs = {f"client:connect={case.get('connect') or False}", f"carriers:{len(present)}"}
+        fs |= {"client:op:" + x["op"] for x in case["ops"]}
+        n_init = sum(1 for r in o["sent"] if r["method"] == "initialize")
+        fs.add(f"client:initialize-requests:{min(n_init, 3)}")
+        fs |= {"client:outcome:" + r["outcome"] for r in o["outcomes"]}
+        if o.get("connected") is False:
+            fs.add("client:connect-raises")
+        for c in present:
+            if obs[c].get("factory_unavailable"):
+                fs.add("factory-unavailable:" + obs[c]["factory_unavailable"])
+        for f in fs:
+            _SUITE.feats = _SUITE.feats or Counter()
+            _SUITE.feats[f] += 1
+        return f"mcpclient/{len(present)}carriers/ops{min(len(case['ops']), 4)}/inits{min(n_init, 3)}"
+
+    def nontrivial(self, case, obs):
+        return not any(o and o.get("harness_error") for o in obs.values())
+
+    def shrink_candidates(self, case):
+        return G.shrink_client(case)
+
+
+class Detection(Suite):
+    """the transport-selection logic (`is_streamable_http_url`, `is_sse_url`, `detect_transport_type`,
+    `try_http_with_sse_fallback`) against the model over the regenerated tables.  Supplementary to the
+    property: there is no oracle, a difference is a broken correspondence."""
+    name = "detection"
+
+    def cases(self, ctx, budget):
+        n = {"quick": 1500, "thorough": 20000, "search": 0}[budget]
+        rng = ctx.sub_rng("c15", "detect", budget)
+        return D.directed() + [D.case(rng) for _ in range(n)]
+
+    def impl(self, case):
+        return D.run_case(case)
+
+    def model_line(self, case, obs=None):
+        return D.model_line(case, obs)
+
+    def compare(self, case, obs, m):
+        if obs.get("harness_error"):
+            return None
+        if m.get("translatable") is False:
+            _SUITE.feats = _SUITE.feats or __import__("collections").Counter()
+            _SUITE.feats["url-tables:not-reread(verified-commit tables)"] += 1
+        if canon(obs["factory"]) != canon(D.factory_expected(obs["factory"])):
+            return f"transport factory / not-started guards: {canon(obs['factory'])[:300]}"
+        a, b = D.shape(obs), D.expected(case, m)
+        for k in a:
+            if canon(a[k]) != canon(b[k]):
+                return f"{k}: the code gives {canon(a[k])[:200]}, the model {canon(b[k])[:200]}"
+        return None
+
+    def kind(self, case, obs):
+        if obs.get("harness_error"):
+            _SUITE.harness_errors += 1
+            return "harness-error"
+        return (f"detect/{obs['detect']}/fallback-{obs['fallback']['k']}/gets{sum(1 for r in obs['detect_requests'] if r[0] == 'GET')}"
+                f"/try_sse-{obs['try_sse']['k']}" + ("/no-http-client" if case.get("client_fails") else ""))
+
+    def nontrivial(self, case, obs):
+        return not obs.get("harness_error")
+
+    def shrink_candidates(self, case):
+        return D.shrink_candidates(case)
+
+
 _SUITE = Conversations()
+_CLIENTS = Clients()
 
 
 def suites():
-    return [_SUITE]
+    return [_SUITE, _CLIENTS, Detection()]
 
 
 def extra(ctx, tier):
